@@ -160,8 +160,48 @@ class Ctx:
                 "rule stopped matching)" % (rule, count, minimum))
 
     # ------------------------------------------------------------------ output
+    def apply_anchor_table(self):
+        """pdsa/anchors.json lists, per rule, the local variable names (per function) that the rule reads as anchors
+        - found by renaming each local variable in turn (tools/rename_sweep.py).  A finding of a rule one of whose
+        anchor names no longer occurs in its function is not a verdict on the code but a lost anchor: it becomes
+        an analysis error (exit 2), never a violation."""
+        path = os.path.join(os.path.dirname(os.path.abspath(__file__)), "anchors.json")
+        if not os.path.exists(path) or not self.findings:
+            return
+        with open(path) as fh:
+            table = json.load(fh)
+        names_in = {}
+
+        def idents(q):
+            if q not in names_in:
+                fi = self.prog.functions.get(q)
+                if fi is None:
+                    names_in[q] = None
+                else:
+                    import ast as _ast
+                    ids = {x.id for x in _ast.walk(fi.node) if isinstance(x, _ast.Name)} | set(fi.all_param_names())
+                    names_in[q] = ids
+            return names_in[q]
+
+        keep = []
+        lost = {}
+        for f in self.findings:
+            miss = []
+            for q, nm in table.get(f.rule, []):
+                ids = idents(q)
+                if ids is None or nm not in ids:
+                    miss.append("%s:%s" % (q.split("pydrobert.speech.")[-1], nm))
+            if miss:
+                lost.setdefault(f.rule, set()).update(miss)
+            else:
+                keep.append(f)
+        self.findings = keep
+        for rule, miss in sorted(lost.items()):
+            self.error(rule, "anchor variable(s) no longer present (%s): the rule cannot decide this clause on the changed code" % ", ".join(sorted(miss)[:6]))
+
     def finish(self, level, explanation, technique, trusted_base, extra_cov=None,
                checker_cmd=None):
+        self.apply_anchor_table()
         known = _load_known()
         kf = [k for k in known.get("findings", []) if k.get("property") == self.prop]
         violations = []
